@@ -566,6 +566,21 @@ acquire_stop(struct AcquireRuntime* self_)
         ECHO(thread_join(&video->filter.thread));
         ECHO(thread_join(&video->sink.thread));
         channel_accept_writes(&video->sink.in, 1);
+        channel_accept_writes(&video->filter.in, 1);
+
+        // Nothing may stay in the filter's queue for the next acquisition
+        // (an abort, or a filter thread that quit early, leaves frames there).
+        {
+            size_t nbytes;
+            channel_read_unmap(&video->filter.in, &video->filter.reader, 0);
+            do {
+                struct slice slice =
+                  channel_read_map(&video->filter.in, &video->filter.reader);
+                nbytes = slice_size_bytes(&slice);
+                channel_read_unmap(
+                  &video->filter.in, &video->filter.reader, nbytes);
+            } while (nbytes);
+        }
 
         // If the monitor has been initialized and its read region hasn't
         // already been released, flush it. This takes at most 2 iterations.
@@ -604,6 +619,9 @@ acquire_abort(struct AcquireRuntime* self_)
 
         video->source.is_stopping = 1;
         channel_accept_writes(&video->sink.in, 0);
+        // the source may also wait for space in the filter's queue (frame
+        // averaging), e.g. when the filter thread has quit on an error
+        channel_accept_writes(&video->filter.in, 0);
         // if the camera is waiting on a trigger, this will unblock it.
         camera_execute_trigger(video->source.camera);
     }
